@@ -284,9 +284,18 @@ class World:
         nod = gen_nodata(cs, dtn, "nodata")
         data = gen_payload(cs, dtn, nrows * ncols, "pl").reshape(nrows, ncols)
         self.log.ev("new", nrows, ncols, dtn, csz, xll, yll, repr(nod))
-        g = Grid(f"grid{self.nid + 1}", ncols, nrows, cellsize=csz,
-                 xllcorner=xll, yllcorner=yll, dtype=getattr(np, dtn),
-                 nodata=nod, comment="sim")
+        style = cs.draw("callstyle", 3)
+        if style == 1:
+            g = Grid(name=f"grid{self.nid + 1}", nodata=nod, comment="sim",
+                     dtype=getattr(np, dtn), yllcorner=yll, xllcorner=xll,
+                     cellsize=csz, nrows=nrows, ncols=ncols)
+        elif style == 2 and nrows == ncols:
+            g = Grid(f"grid{self.nid + 1}", ncols, None, csz, xll, yll,
+                     getattr(np, dtn), nod, "sim")
+        else:
+            g = Grid(f"grid{self.nid + 1}", ncols, nrows, cellsize=csz,
+                     xllcorner=xll, yllcorner=yll, dtype=getattr(np, dtn),
+                     nodata=nod, comment="sim")
         # cells enter through in-place writes on the grid's own array so that
         # the starting payload is exactly the drawn one for every dtype
         g.data[...] = data
